@@ -19,6 +19,7 @@ def extra(ctx):
     import gfi_extras
     gfi_extras.c01_law(ctx, 30000 if ctx.thorough else 4000)
     gfi_extras.c01_modes(ctx)
+    gfi_extras.c01_mixed_cond(ctx)
 
 
 def replay(ctx, payload):
